@@ -237,6 +237,7 @@ func §E() {
 		{"range-func", "n := 0\nsq := func(yield func(int) bool) {\n\tfor i := 0; i < 3; i++ {\n\t\tif !yield(i) {\n\t\t\treturn\n\t\t}\n\t}\n}\nfor v := range sq {\n\tn += v\n}\nreturn n"},
 		{"range-ptr-array", "arr := [3]int{5, 6, 7}\nn := 0\nfor i, v := range &arr {\n\tn += i*100 + v\n}\nreturn n"},
 		{"range-ptr-array-with-break", "arr := [3]int{5, 6, 7}\nn := 0\nfor i, v := range &arr {\n\tif i == 1 {\n\t\tcontinue\n\t}\n\tif v == 7 {\n\t\tbreak\n\t}\n\tn += v\n}\nreturn n"},
+		{"goto-over-range", "n := 0\nxs := []int{1, 2, 3}\nif tr.B(1) {\n\tgoto end\n}\nfor _, x := range xs {\n\tn += x\n}\nfor i := range 2 {\n\tn += i * 10\n}\nend:\nn++\nreturn n"},
 		{"labelled-range", "n := 0\nouter:\nfor _, a := range []int{1, 2, 3} {\n\tfor _, b := range []int{1, 2} {\n\t\tif b == 2 {\n\t\t\tcontinue outer\n\t\t}\n\t\tn += a * b\n\t}\n}\nreturn n"},
 	} {
 		body := fmt.Sprintf("YIELD(1)\nf := func() int {\n%s}\nYIELD(f())\nYIELD(2)\nRETNIL", indent(c.code))
